@@ -77,3 +77,48 @@ Definition mode_table : list Z :=
      [match open_mode m e with Created => 0 | Replaced => 1 | OpenedExisting => 2 | Refused => 3 end]%Z)
      [false; true]) [MRead; MWrite; MOverwrite]
   ++ flat_map (fun m => flat_map (fun g => [if removeable m g then 1 else 0]%Z) [false; true]) [MRead; MWrite; MOverwrite].
+
+(* ---- correlations (C07) ------------------------------------------------------ *)
+From OQ Require Import Lib.PySem Model.Corr Model.SuperOps.
+(* value of one ordered n-time correlation: the first n-1 operators enter as pre-measurement
+   controls at their steps (in operator order), the last one as an expectation value *)
+Definition corr_value (d : nat) (pts : list (ptensor GK)) (props : list (gmat * gmat)) (rho0 : list G)
+    (ops : list (bool * gmat)) (steps : list Z) : G :=
+  let dsys := (d * d)%nat in
+  let n := length steps in
+  let firsts := firstn (n - 1) steps in
+  let last := nth (n - 1) steps 0%Z in
+  let sup := fun (o : bool * gmat) => if fst o then @left_super GK d (snd o) else @right_super GK d (snd o) in
+  let hist := map (fun so => Build_add (KInt (fst so)) false (sup (snd so))) (combine firsts ops) in
+  let pr := fun k => nth k props ([], []) in
+  let N := Z.to_nat last in
+  let states := compute_dynamics dsys pts
+       (fun k => option_map (@matT GK) (ctl_pre dsys hist 1%float 0%float (Z.of_nat k)))
+       (fun k => None) (fun k => @matT GK (fst (pr k))) (fun k => @matT GK (snd (pr k))) true N rho0 in
+  let olast := snd (nth (n - 1) ops (true, [])) in
+  @expectation GK d olast (nth N states []).
+
+Definition flat_entry (e : option G) : list Z :=
+  match e with None => [0%Z] | Some z => [1%Z; fst z; snd z] end.
+Definition flat_fbits (f : float) : list Z := let '(s, m, e) := fbits f in [s; m; e].
+
+Fixpoint parse_all (specs : list tspec) (max_step : Z) dt start : option (list (list Z)) :=
+  match specs with
+  | [] => Some []
+  | s :: t => match parse_times s max_step dt start, parse_all t max_step dt start with
+              | Some a, Some b => Some (a :: b) | _, _ => None end
+  end.
+
+(* compute_correlations_nt: [0] for IndexError, else 1 :: time axes :: entries *)
+Definition corr_nt_flat (d : nat) pts props rho0 (ops : list (bool * gmat)) (specs : list tspec)
+    (max_step : Z) (dt start : float) : list Z :=
+  match parse_all specs max_step dt start with
+  | None => [0%Z]
+  | Some times =>
+    1%Z :: flat_map (fun ts => Z.of_nat (length ts) :: flat_map (fun k => flat_fbits (ret_time dt start k)) ts) times
+        ++ flat_map flat_entry (correlations_nt G (corr_value d pts props rho0 ops) times)
+  end.
+
+(* the parsed steps alone: used for the exhaustive check of the specification space *)
+Definition parse_flat (s : tspec) (max_step : Z) (dt start : float) : list Z :=
+  match parse_times s max_step dt start with None => [(-1)%Z] | Some l => Z.of_nat (length l) :: l end.
